@@ -81,6 +81,16 @@ def draw_case(rng: numpy.random.Generator, nq=None, nat=None, low_t: bool = True
     return dict(nq=nq, na=nat, np=np_, v=v, t=t, freq=freq, g=g, kp=kp, w=w, ptot=ptot, pst=pst, cv=cv)
 
 
+def twin_cases(rng, cases, every=5):
+    """Every `every`-th case becomes a twin of the one before it: the same temperature and volume grids (and shapes) with ANOTHER
+    spectrum, evaluated right after it - two materials on one grid in one process."""
+    for k in range(4, len(cases), every):
+        base = cases[k - 1]
+        cases[k] = dict(base, freq=rng.uniform(30.0, 1500.0, base["freq"].shape) * (base["freq"] != 0), g=rng.uniform(-3.0, 4.0, base["g"].shape),
+                        kp=rng.uniform(-5.0, 5.0, base["kp"].shape), w=rng.uniform(0.1, 20.0, base["nq"]))
+    return cases
+
+
 def draw_fractions(rng, ntv):
     """Positive axial strain fractions in (0.05, 0.9), rows summing to 1."""
     while True:
